@@ -76,6 +76,17 @@ _REAL_STR_FORMAT = str.format
 
 
 def _has_symbolic(v, depth=0):
+    """True if v is / contains a CrossHair symbolic value.  Evaluated with the
+    tracer suspended: under tracing isinstance()/type() are patched and make a
+    symbolic int look like a plain int."""
+    from crosshair.tracers import NoTracing, is_tracing
+    if is_tracing():
+        with NoTracing():
+            return _has_symbolic_raw(v, depth)
+    return _has_symbolic_raw(v, depth)
+
+
+def _has_symbolic_raw(v, depth=0):
     from crosshair.core import CrossHairValue
     if isinstance(v, CrossHairValue):
         return True
@@ -85,12 +96,12 @@ def _has_symbolic(v, depth=0):
         return False
     if isinstance(v, (tuple, list)):
         for x in v:
-            if _has_symbolic(x, depth + 1):
+            if _has_symbolic_raw(x, depth + 1):
                 return True
         return False
     if isinstance(v, slice):
-        return (_has_symbolic(v.start, depth + 1) or _has_symbolic(v.stop, depth + 1) or
-                _has_symbolic(v.step, depth + 1))
+        return (_has_symbolic_raw(v.start, depth + 1) or _has_symbolic_raw(v.stop, depth + 1) or
+                _has_symbolic_raw(v.step, depth + 1))
     return False
 
 
@@ -100,8 +111,8 @@ def quiet_format(self, *a, **kw):
     part of any property); concrete calls go to the real str.format."""
     from crosshair.tracers import NoTracing
     with NoTracing():
-        sym = _has_symbolic(self) or any(_has_symbolic(x) for x in a) or \
-            any(_has_symbolic(x) for x in kw.values())
+        sym = _has_symbolic_raw(self) or any(_has_symbolic_raw(x) for x in a) or \
+            any(_has_symbolic_raw(x) for x in kw.values())
         if not sym:
             return _REAL_STR_FORMAT(self, *a, **kw)
     return self if isinstance(self, str) else "<fmt>"
